@@ -31,11 +31,12 @@ Definition tgt_match (m : tobs) (o : otgt) : bool :=
   match oo_cancel o with None => true | Some b => Bool.eqb b (is_some (ts_cancel m)) end &&
   Bool.eqb (oo_end o) (is_some (ts_end m)).
 
-(* a target whose context was already Done when it started and that was still running when the process
-   exited: runTarget returns from `select` at once, its goroutine may not even have printed its start *)
+(* a target whose context was already Done when it started (or within 2 ms: -t 1ns, 400us ...) and that was still
+   running when the process exited: runTarget returns from `select` at once, its goroutine may not even have printed
+   its start *)
 Definition cut_at_start (m : tobs) : bool :=
   match ts_cancel m, ts_end m with
-  | Some x, None => Z.eqb x (ts_start m)
+  | Some x, None => Z.leb (x - ts_start m) 2000000
   | _, _ => false
   end.
 
